@@ -44,6 +44,12 @@ def make_traced_channel():
             if w is not None:
                 w.chan_events.append((w.sched.steps if w.sched else 0, w.thread_name(), self.sock_fd, what))
 
+        def handle_close(self):
+            w = self.world
+            if getattr(self, "closed_step", None) is None:
+                self.closed_step = w.sched.steps if (w is not None and w.sched) else 0
+            return HTTPChannel.handle_close(self)
+
         def write_soon(self, data):
             n = len(data) if not hasattr(data, "prepare") else data.__len__()
             if n > getattr(self, "max_write", 0):
@@ -304,14 +310,18 @@ class SchedRun:
                           "request_partial": ch.request is not None, "will_close": ch.will_close, "cwf": ch.close_when_flushed,
                           "connected": ch.connected, "in_map": ch.sock_fd in w.map, "sent_continue": ch.sent_continue})
         parked = []
+        late_waits = []
         for t in self.sched.threads:
             if t.state == "blocked" and t.what == "cond.wait":
                 for ch in w.channels:
                     if t.wait_obj is ch.outbuf_lock:
                         parked.append((t.name, ch.sock_fd))
+                        cs = getattr(ch, "closed_step", None)
+                        if cs is not None and t.wait_step > cs:
+                            late_waits.append(ch.sock_fd)
         disp = w.task_dispatcher
         idle_workers = [t.name for t in self.sched.threads if t.state == "blocked" and t.what == "cond.wait" and t.wait_obj is getattr(disp, "queue_cv", None)]
-        return {"blocked": self.sched.blocked(), "spin": self.sched.spin, "channels": chans, "parked_producers": parked, "idle_workers": idle_workers,
+        return {"blocked": self.sched.blocked(), "spin": self.sched.spin, "channels": chans, "parked_producers": parked, "late_waits": late_waits, "idle_workers": idle_workers,
                 "queue": len(getattr(w.task_dispatcher, "queue", ())), "steps": self.sched.steps}
 
     def result(self):
